@@ -317,7 +317,8 @@ func (s *seqRT) ruleIterString() {
 	}
 	st, r := info.symbolicObj()
 	outs := s.runMethod(st, info.moveNext, r)
-	var stop, adv *Outcome
+	var stop *Outcome
+	var advs []*Outcome
 	for i := range outs {
 		o := &outs[i]
 		if o.Panicked {
@@ -325,73 +326,132 @@ func (s *seqRT) ruleIterString() {
 			return
 		}
 		if b, ok := asBool(o.Ret[0]); ok && !b {
-			stop = o
-		} else if ok && b {
-			adv = o
-		}
-	}
-	if len(outs) != 2 || stop == nil || adv == nil {
-		c.bad(rule, "seq."+ctor+" MoveNext", pos, fmt.Sprintf("expected exactly two paths (exhausted / decode one rune); got %d", len(outs)))
-		return
-	}
-	// the advancing path: one decode call on the remaining bytes
-	var dec *Event
-	for i, e := range adv.St.Events {
-		if e.Kind == "call" {
-			if dec != nil {
-				c.bad(rule, "seq."+ctor+" MoveNext", pos, "more than one call on the advancing path")
+			if stop != nil {
+				c.bad(rule, "seq."+ctor+" exhaustion", pos, "MoveNext reports false on more than one path: besides pos >= len(str) there is another way to stop early", o.St.TraceStrings()...)
 				return
 			}
-			dec = &adv.St.Events[i]
+			stop = o
+		} else if ok && b {
+			advs = append(advs, o)
+		} else {
+			c.bad(rule, "seq."+ctor+" MoveNext", pos, "MoveNext's result is not a definite boolean on some path")
+			return
 		}
 	}
-	okDec := dec != nil && dec.Fn != nil && dec.Fn.Object() != nil && dec.Fn.Object().Pkg() != nil && dec.Fn.Object().Pkg().Path() == "unicode/utf8" &&
-		(dec.Fn.Name() == "DecodeRuneInString" || dec.Fn.Name() == "DecodeRune")
-	if !okDec {
-		c.bad(rule, "seq."+ctor+" decode", pos, "the advancing path does not decode the next UTF-8 sequence with unicode/utf8.DecodeRune[InString] (byte offsets and U+FFFD/width 1 for invalid bytes cannot be obtained otherwise)", adv.St.TraceStrings()...)
+	if stop == nil || len(advs) == 0 {
+		c.bad(rule, "seq."+ctor+" MoveNext", pos, fmt.Sprintf("expected one exhausted path and at least one advancing path; got %d paths", len(outs)))
 		return
 	}
-	// argument: str[P:]
-	arg := dec.Args[0]
-	ae, isE := arg.(Expr)
-	var P AV
-	if isE && ae.Op == "slice" && len(ae.Args) == 3 && canon(ae.Args[0]) == "⟨F:"+opField+"⟩" {
-		if _, hiNil := ae.Args[2].(Nil); hiNil {
-			P = ae.Args[1]
+	// Every advancing path is either
+	//  (a) the decode path: exactly one utf8.DecodeRune[InString] on str[pos:], pos' = pos + returned width,
+	//      key = old pos, value = returned rune; or
+	//  (b) a single-byte fast path: the path condition establishes str[pos] < utf8.RuneSelf, nothing is
+	//      called, pos' = pos + 1, key = old pos, value = rune(str[pos]).
+	// The paths partition the inputs, so together with the single exhausted path this is Go's range over a string.
+	var pf string
+	var ps Sym
+	decodePaths, fastPaths := 0, 0
+	for _, adv := range advs {
+		var calls []*Event
+		for i, e := range adv.St.Events {
+			if e.Kind == "call" {
+				calls = append(calls, &adv.St.Events[i])
+			}
 		}
-	}
-	ps, isSym := P.(Sym)
-	if !isSym || !strings.HasPrefix(ps.Name, "F:") {
-		c.bad(rule, "seq."+ctor+" decode", pos, "decoder is not applied to the remaining bytes str[pos:] with pos a field of the iterator; got argument "+canon(arg))
-		return
-	}
-	pf := strings.TrimPrefix(ps.Name, "F:")
-	// results of the decode call
-	rv := fmt.Sprintf("ret:%s#", dec.Name())
-	after := adv.St.Obj(r)
-	gotNext := canon(after.Fields[pf])
-	// find names of the two results
-	var r0, r1 string
-	for _, n := range info.fields {
-		_ = n
-	}
-	// width result is the #1 result symbol
-	for _, cand := range []AV{after.Fields[pf]} {
-		if e, ok := cand.(Expr); ok && e.Op == "+" {
+		after := adv.St.Obj(r)
+		cur := s.runMethod(adv.St, info.current, r)
+		if len(cur) != 1 || len(cur[0].Ret) != 1 {
+			c.bad(rule, "seq."+ctor+" Current after advance", s.w.FnPos(info.current), "Current is not a single path")
+			return
+		}
+		k := canon(pairField(cur[0].Ret[0], "Key"))
+		v := canon(pairField(cur[0].Ret[0], "Val"))
+		if len(calls) == 0 {
+			// (b) fast path: find the position field as the one that advanced by 1
+			fpf := ""
+			for _, n := range info.fields {
+				if canon(after.Fields[n]) == canon(Expr{Op: "+", Args: []AV{Sym{Name: "F:" + n}, mkInt(1)}}) {
+					fpf = n
+				}
+			}
+			if fpf == "" {
+				c.bad(rule, "seq."+ctor+" fast path", pos, "an advancing path without a decoder call does not advance the position by exactly one byte", adv.St.TraceStrings()...)
+				return
+			}
+			byteAt := "⟨F:" + opField + "[⟨F:" + fpf + "⟩]⟩"
+			established := false
+			var conds []string
+			for _, cd := range adv.St.Conds {
+				cc := condCanon(cd)
+				conds = append(conds, cc)
+				// str[pos] < 128, possibly through a conversion to rune/int
+				if strings.HasPrefix(cc, "<(") && strings.HasSuffix(cc, ",128)") && strings.Contains(cc, byteAt) && !strings.Contains(cc, "+(") {
+					established = true
+				}
+			}
+			if !established {
+				c.bad(rule, "seq."+ctor+" fast path", pos, "a path that does not call the decoder is taken without establishing that the byte at the position is below utf8.RuneSelf (a multi-byte or invalid sequence would be split into bytes): conditions "+strings.Join(conds, " ; "))
+				return
+			}
+			okVal := strings.Contains(v, byteAt) && !strings.Contains(v, "+(")
+			c.check(k == "⟨F:"+fpf+"⟩" && okVal, rule, "seq."+ctor+" fast path", pos, "single-byte fast path: guarded by str[pos] < utf8.RuneSelf, key = pos, value = rune(str[pos]), pos' = pos+1",
+				"fast path delivers Key = "+k+", Val = "+v+"; expected the offset before the advance and the byte at it")
+			fastPaths++
+			continue
+		}
+		if len(calls) != 1 {
+			c.bad(rule, "seq."+ctor+" MoveNext", pos, "more than one call on an advancing path", adv.St.TraceStrings()...)
+			return
+		}
+		dec := calls[0]
+		okDec := dec.Fn != nil && dec.Fn.Object() != nil && dec.Fn.Object().Pkg() != nil && dec.Fn.Object().Pkg().Path() == "unicode/utf8" &&
+			(dec.Fn.Name() == "DecodeRuneInString" || dec.Fn.Name() == "DecodeRune")
+		if !okDec {
+			c.bad(rule, "seq."+ctor+" decode", pos, "the advancing path does not decode the next UTF-8 sequence with unicode/utf8.DecodeRune[InString] (byte offsets and U+FFFD/width 1 for invalid bytes cannot be obtained otherwise)", adv.St.TraceStrings()...)
+			return
+		}
+		// argument: str[P:]
+		arg := dec.Args[0]
+		ae, isE := arg.(Expr)
+		var P AV
+		if isE && ae.Op == "slice" && len(ae.Args) == 3 && canon(ae.Args[0]) == "⟨F:"+opField+"⟩" {
+			if _, hiNil := ae.Args[2].(Nil); hiNil {
+				P = ae.Args[1]
+			}
+		}
+		var isSym bool
+		ps, isSym = P.(Sym)
+		if !isSym || !strings.HasPrefix(ps.Name, "F:") {
+			c.bad(rule, "seq."+ctor+" decode", pos, "decoder is not applied to the remaining bytes str[pos:] with pos a field of the iterator; got argument "+canon(arg))
+			return
+		}
+		pf = strings.TrimPrefix(ps.Name, "F:")
+		rv := fmt.Sprintf("ret:%s#", dec.Name())
+		gotNext := canon(after.Fields[pf])
+		var r0, r1 string
+		if e, ok := after.Fields[pf].(Expr); ok && e.Op == "+" {
 			for _, a := range e.Args {
 				if sy, ok := a.(Sym); ok && strings.HasPrefix(sy.Name, rv) && strings.HasSuffix(sy.Name, "#1") {
 					r1 = canon(sy)
 				}
 			}
 		}
+		if r1 == "" {
+			c.bad(rule, "seq."+ctor+" advance", pos, "the position is not advanced by the width returned by the decoder (e.g. by RuneLen of the rune, which is 3 for an invalid byte decoded as U+FFFD with width 1); got pos' = "+gotNext)
+			return
+		}
+		r0 = strings.TrimSuffix(r1, "#1⟩") + "#0⟩"
+		wantNext := canon(Expr{Op: "+", Args: []AV{ps, Sym{Name: strings.Trim(r1, "⟨⟩")}}})
+		c.check(gotNext == wantNext, rule, "seq."+ctor+" advance", pos, "pos' = pos + width returned by the decoder", "expected pos' = "+wantNext+"; got "+gotNext)
+		c.check(k == canon(ps) && v == r0, rule, "seq."+ctor+" Current after advance", s.w.FnPos(info.current),
+			"Key is the byte offset the rune was decoded at, Val the decoded rune",
+			"expected Key = "+canon(ps)+" (offset before the advance) and Val = "+r0+"; got Key = "+k+", Val = "+v)
+		decodePaths++
 	}
-	if r1 == "" {
-		c.bad(rule, "seq."+ctor+" advance", pos, "the position is not advanced by the width returned by the decoder (e.g. by RuneLen of the rune, which is 3 for an invalid byte decoded as U+FFFD with width 1); got pos' = "+gotNext)
+	if decodePaths == 0 {
+		c.bad(rule, "seq."+ctor+" decode", pos, "no advancing path decodes a UTF-8 sequence")
 		return
 	}
-	r0 = strings.TrimSuffix(r1, "#1⟩") + "#0⟩"
-	wantNext := canon(Expr{Op: "+", Args: []AV{ps, Sym{Name: strings.Trim(r1, "⟨⟩")}}})
-	c.check(gotNext == wantNext, rule, "seq."+ctor+" advance", pos, "pos' = pos + width returned by the decoder", "expected pos' = "+wantNext+"; got "+gotNext)
 	// stop condition
 	wantStop := "<=(len(⟨F:" + opField + "⟩),⟨F:" + pf + "⟩)"
 	gotStop := ""
@@ -404,17 +464,7 @@ func (s *seqRT) ruleIterString() {
 			c.bad(rule, "seq."+ctor+" exhaustion", pos, "exhausted MoveNext modifies field "+n)
 		}
 	}
-	// Current after the advance: Key = old pos, Val = decoded rune
-	cur := s.runMethod(adv.St, info.current, r)
-	if len(cur) != 1 || len(cur[0].Ret) != 1 {
-		c.bad(rule, "seq."+ctor+" Current after advance", s.w.FnPos(info.current), "Current is not a single path")
-		return
-	}
-	k := canon(pairField(cur[0].Ret[0], "Key"))
-	v := canon(pairField(cur[0].Ret[0], "Val"))
-	c.check(k == canon(ps) && v == r0, rule, "seq."+ctor+" Current after advance", s.w.FnPos(info.current),
-		"Key is the byte offset the rune was decoded at, Val the decoded rune",
-		"expected Key = "+canon(ps)+" (offset before the advance) and Val = "+r0+"; got Key = "+k+", Val = "+v)
+	_ = fastPaths
 	// base: position starts at 0
 	b0 := baseObj.Fields[pf]
 	n0, isInt := asInt(b0)
